@@ -336,6 +336,22 @@ def rule_f(ctx: Ctx, env: EnvA):
             ctx.ob("C01.f", inst, True, sl.where, f"{len(cells)} written cells, none shares an in-place modified tensor with another")
 
 
+def rule_h(ctx: Ctx, env: EnvA):
+    """C01.h direction of the accumulating updates: the tracked load / clock / length grows with
+    what is added to it (a `-` for a `+` makes the mask compare against a quantity that shrinks)."""
+    sl = env.slot("_step")
+    for key, want in T.UPDATE_SIGN.get(env.name, {}).items():
+        val = sl.cell(key)
+        if val is None:
+            raise AnalysisError(f"{env.name}._step: {key} not written")
+        have = nf.polarity(val)
+        bad = {c: (sorted(have.get(c, set())), sorted(w)) for c, w in want.items() if have.get(c, set()) != set(w)}
+        ctx.ob("C01.h", f"{env.name}._step:{key}:direction", not bad, sl.where,
+               f"'{key}' grows/shrinks with its inputs as {{cell: signs}} = { {c: sorted(v) for c, v in have.items() if c in want} }" +
+               ("" if not bad else f"; expected { {c: w for c, (h, w) in bad.items()} } but found { {c: h for c, (h, w) in bad.items()} }"),
+               construct=f"{sl.fi.qualname}:{key}:direction:{','.join(sorted(bad))}")
+
+
 def run(ctx: Ctx):
     for cname, (path, family) in T.ENVS.items():
         env = EnvA(ctx.repo, path, cname)
@@ -346,6 +362,7 @@ def run(ctx: Ctx):
         rule_c(ctx, env)
         rule_e(ctx, env)
         rule_f(ctx, env)
+        rule_h(ctx, env)
 
 
 def run_thorough(ctx: Ctx):
